@@ -141,7 +141,8 @@ class Canon:
         self.envs = {}
         self.params = func_params(fn)
         self.locals = set(local_names(fn))
-        rec = _Rec(self.envs, mutated_locals(fn) & self.locals)
+        self.opaque = mutated_locals(fn) & self.locals
+        rec = _Rec(self.envs, self.opaque)
         try:
             rec.exit_states(fn)
             self.ok = True
@@ -175,11 +176,35 @@ class Canon:
             env = {k: v for k, v in env.items() if k.split('.')[0] not in shadow}
         return substitute(node, env)
 
-    def text(self, node, env=None):
-        return self._number(self.expr(node, env))
-
-    def _number(self, tree):
+    def text(self, node, env=None, define=False):
+        """Canonical text.  With ``define`` the containers that are built up in
+        place (and therefore stay as placeholders) are followed by how they are
+        filled: ``v1[0] where v1 := [] + append(each(enumerate(x))[0])``."""
         mapping = {}
+        text = self._number(self.expr(node, env), mapping)
+        if define:
+            extra = []
+            for name, ph in sorted(mapping.items(), key=lambda kv: kv[1]):
+                if name not in self.opaque:
+                    continue
+                parts = []
+                for st in ast.walk(self.fn):
+                    if isinstance(st, ast.Assign) and len(st.targets) == 1 \
+                            and isinstance(st.targets[0], ast.Name) and st.targets[0].id == name:
+                        parts.append(self._number(self.expr(st.value), {}))
+                    elif isinstance(st, ast.Call) and isinstance(st.func, ast.Attribute) \
+                            and isinstance(st.func.value, ast.Name) and st.func.value.id == name \
+                            and st.func.attr in MUTATORS:
+                        parts.append('%s(%s)' % (st.func.attr, ', '.join(
+                            self._number(self.expr(a), {}) for a in st.args)))
+                extra.append('%s := %s' % (ph, ' + '.join(parts)))
+            if extra:
+                text += ' where ' + '; '.join(extra)
+        return text
+
+    def _number(self, tree, mapping=None):
+        if mapping is None:
+            mapping = {}
 
         def ph(name):
             if name not in mapping:
